@@ -67,6 +67,7 @@ struct Runner : Hooks {
     int polls = 0;
   };
   std::vector<OpCtx> octx;  // per thread
+  std::vector<bool> skipped;  // ops that returned without running (e.g. new on an occupied slot)
   std::vector<size_t> tpos;  // per thread: index of the op it is executing (or about to)
 
   explicit Runner(const Plan &p, const RunOpts &o) : plan(p), opts(o) {}
